@@ -39,6 +39,7 @@ func runC06(c *kit.Ctx) {
 	{
 		eng := bounds.New(p)
 		guardsAreTight(c, eng, []*ssa.Function{p.Func("hrpc", "", "cellFromCellBlock")})
+		noResponseBufferRecycling(c)
 		n := 0
 		for _, o := range eng.Obligations(dcb) {
 			n++
@@ -313,40 +314,7 @@ func runC06(c *kit.Ctx) {
 			}
 			c.Check(present, upd, "scanner-id-presence", call.Pos(), "a region scanner is recorded on the edge 'the response has a scanner_id field' (nil test)", "whether a region scanner was opened is decided from the value of scanner_id, not from its presence: a server-assigned id of 0 is not recorded, the region is re-opened from the same start row and its first batch is returned twice")
 		}
-		// attributes of a RegionInfo are shared and immutable: never written through
-		for _, fn := range p.Funcs {
-			if enclosingNamed(fn).Pkg == nil || enclosingNamed(fn).Pkg.Pkg.Path() != kit.Module {
-				continue
-			}
-			fromRegionAttr := func(v ssa.Value) bool {
-				for i := 0; i < 8; i++ {
-					switch x := kit.Strip(v).(type) {
-					case *ssa.Slice:
-						v = x.X
-						continue
-					case *ssa.Call:
-						n := kit.CalleeName(x)
-						return n == hrpcRI+"StartKey" || n == hrpcRI+"StopKey" || n == hrpcRI+"Name" || n == hrpcRI+"Table" || n == hrpcRI+"Namespace"
-					}
-					return false
-				}
-				return false
-			}
-			kit.Instrs(fn, func(in ssa.Instruction) {
-				switch x := in.(type) {
-				case *ssa.Store:
-					if ia, ok := x.Addr.(*ssa.IndexAddr); ok && fromRegionAttr(kit.Root(ia.X)) {
-						c.Bad(fn, "region-attribute-written", x.Pos(), "a byte of a RegionInfo attribute (start/stop key, name) is overwritten in place: the cached region descriptor is corrupted for every later request and scan", "")
-					}
-				case *ssa.Call:
-					if kit.CalleeName(x) == "builtin.append" && fromRegionAttr(kit.Root(x.Call.Args[0])) {
-						if sl, ok := kit.Root(x.Call.Args[0]).(*ssa.Slice); ok && sl.Max == nil {
-							c.Bad(fn, "region-attribute-appended-to", x.Pos(), "append onto a sub-slice of a RegionInfo attribute writes into its backing array: the cached region's key is modified in place (later scans compute their next start row from the corrupted key)", "")
-						}
-					}
-				}
-			})
-		}
+		regionAttributesAreImmutable(c)
 		// reversed scans: decrementing the last byte of the region start key must not wrap
 		kit.Instrs(upd, func(in ssa.Instruction) {
 			bo, ok := in.(*ssa.BinOp)
@@ -365,6 +333,11 @@ func runC06(c *kit.Ctx) {
 			}
 			c.Check(guarded, upd, "byte-decrement-guarded", bo.Pos(), "the last byte is decremented only on the edge where it is not 0x00 (otherwise the key is shortened)", "the last byte of the region start key is decremented without excluding 0x00: it wraps to 0xff and the next start row lies beyond the region boundary (rows repeat, the scan does not end)")
 		})
+	}
+
+	// ---- R5 ---------------------------------------------------------------
+	if !c.Frozen {
+		embed(c, "R5", "a region scanner is forgotten only when the server has finished or released it, and ending a scan never blocks the delivery of rows (the rules of C14, run as one rule here)", 15, runC14)
 	}
 }
 
